@@ -29,6 +29,7 @@ pub type CD = CircuitData<F, C, D>;
 // ------------------------------------------------------------------------------------------
 thread_local! {
     static LOC: RefCell<String> = const { RefCell::new(String::new()) };
+    static DEPTH: std::cell::Cell<u32> = const { std::cell::Cell::new(0) };
 }
 
 pub fn install_loc_hook() {
@@ -37,6 +38,10 @@ pub fn install_loc_hook() {
             .location()
             .map(|l| format!("{}:{}", l.file(), l.line()))
             .unwrap_or_default();
+        if DEPTH.with(|d| d.get()) == 0 {
+            // not code under test: a harness failure must be visible
+            eprintln!("harness panic (outside guarded code): {info}");
+        }
         LOC.with(|l| *l.borrow_mut() = loc);
     }));
 }
@@ -84,7 +89,10 @@ pub fn norm_msg(m: &str) -> String {
 }
 
 pub fn run_guard<T>(f: impl FnOnce() -> anyhow::Result<T>) -> (Outcome, Option<T>) {
-    match catch_unwind(AssertUnwindSafe(f)) {
+    DEPTH.with(|d| d.set(d.get() + 1));
+    let r = catch_unwind(AssertUnwindSafe(f));
+    DEPTH.with(|d| d.set(d.get() - 1));
+    match r {
         Ok(Ok(v)) => (Outcome::Ok, Some(v)),
         Ok(Err(e)) => (Outcome::Err(format!("{e:#}").chars().take(160).collect()), None),
         Err(p) => {
@@ -121,7 +129,8 @@ pub fn binding_bits(cfg: &CircuitConfig) -> usize {
 }
 
 /// FRI / challenge-count variants of the standard recursion configuration; every variant keeps
-/// 28 queries * 3 rate bits + 16 pow bits = 100 bits of binding (variant 6: 84 * 1 + 16).
+/// 28 queries * 3 rate bits + 16 pow bits = 100 bits of binding (variant 6: 21 * 4 + 16; the quotient degree
+/// factor 8 needs rate_bits >= 3).
 pub fn config_variant(v: usize, zk: bool) -> CircuitConfig {
     let mut c = if zk { CircuitConfig::standard_recursion_zk_config() } else { CircuitConfig::standard_recursion_config() };
     match v % 10 {
@@ -132,8 +141,8 @@ pub fn config_variant(v: usize, zk: bool) -> CircuitConfig {
         4 => c.fri_config.reduction_strategy = FriReductionStrategy::ConstantArityBits(3, 4),
         5 => c.fri_config.reduction_strategy = FriReductionStrategy::MinSize(None),
         6 => {
-            c.fri_config.rate_bits = 1;
-            c.fri_config.num_query_rounds = 84;
+            c.fri_config.rate_bits = 4;
+            c.fri_config.num_query_rounds = 21;
             c.fri_config.cap_height = 2;
         }
         7 => c.num_challenges = 3,
